@@ -96,13 +96,13 @@ pub fn outcome<T: Into<Value>>(r: Result<Option<T>, String>) -> Value {
 }
 
 /// Output sink: one JSON object per line on stdout.
-pub struct Out {
+pub struct Sink {
 	pub mismatches: u64,
 	pub checked: u64,
 	limit: u64,
 }
 
-impl Out {
+impl Sink {
 	pub fn new() -> Self {
 		Self { mismatches: 0, checked: 0, limit: 50 }
 	}
